@@ -244,6 +244,29 @@ fn check_run(key: &str, m: Method, sc: &Scene, script: &[(usize, Ans)], base_run
             out.validated += 1;
         }
     }
+    // 6. a backward run is the mirror image of the forward run of the reflected problem, callback by
+    //    callback, whatever the callbacks answer (user Jacobian: bit for bit)
+    if dir < 0.0 {
+        let twin = reflect(&sc.prob);
+        let mut ct = c.clone();
+        ct.x0 = -c.x0;
+        ct.xend = -c.xend;
+        ct.first_step = c.first_step.map(|h| -h);
+        let r2 = run_lowlevel(&twin, &ct, script, &[], None, false);
+        out.events += r2.st.n_ode;
+        if r2.recs.len() != recs.len() {
+            viol!("mirror", format!("{} callbacks, the mirrored forward run has {}", recs.len(), r2.recs.len()));
+        } else {
+            for (j, (q, q2)) in recs.iter().zip(&r2.recs).enumerate() {
+                if q.x.to_bits() != (-q2.x).to_bits() && !(q.x == 0.0 && q2.x == 0.0) || q.y.iter().zip(&q2.y).any(|(u, v)| u.to_bits() != v.to_bits()) {
+                    viol!("mirror", format!("callback {}: (x,y)=({:e},{:?}), the mirrored forward run has ({:e},{:?})", j, q.x, q.y, q2.x, q2.y));
+                    break;
+                }
+            }
+            out.tag("mirror-checked");
+        }
+        out.validated += 1;
+    }
     let _ = n;
     let mut h = r.st.fp;
     h.u(recs.len() as u64);
